@@ -28,8 +28,11 @@ def harnesses(tier, seed):
     for ni in (0, 1, 2):
         for to in (0, 1):
             q = "thorough"
-            for wb in (0, 1):
-                if ni == 2 and (wb == 1 or to == 0):
+            for wb in (0,):
+                # wb = 1 (a second origin populated: a second hash-table insert) does not finish under CBMC
+                # within the tier's cap (section 0 of DESIGN.md); origin isolation of pop is decided by the
+                # MIR obligation c05_pool_pop_step instead
+                if ni == 2 and to == 0:
                     continue
                 hs.append(H(name=f"c05_pool_pop_n{ni}_t{to}_b{wb}", module="pool", call=f"pop_step({ni},{'true' if to else 'false'},{'true' if wb else 'false'})", unwind=3, stubs=STUBS, family="pop_step",
                             tier=q if wb == 0 else "thorough",
